@@ -163,11 +163,11 @@ Proof.
   right. apply IH. exact H.
 Qed.
 
-Lemma cache_recovery_visible : forall V hist_rev top cmd epoch_eq live recovered pubs,
-  cache_recovery V hist_rev top cmd epoch_eq live = SReply recovered pubs ->
+Lemma cache_recovery_visible : forall V hist_rev top cmd epoch_eq req_delta live recovered pubs,
+  cache_recovery V hist_rev top cmd epoch_eq req_delta live = SReply recovered pubs ->
   all_visible V pubs.
 Proof.
-  intros V hist_rev top cmd epoch_eq live recovered pubs. unfold cache_recovery.
+  intros V hist_rev top cmd epoch_eq req_delta live recovered pubs. unfold cache_recovery.
   destruct (recover_cache V hist_rev) as [latest recd] eqn:Erc.
   destruct (is_cache_recovered latest recd top cmd epoch_eq) as [recpubs rcv] eqn:Ei.
   assert (Hr : real_visible V recpubs).
@@ -183,6 +183,7 @@ Proof.
   assert (Ho : all_visible V out)
     by exact (merge_all_visible V recpubs (buffered_of V live) _ _ _ Hr (buffered_real_visible V live) Em).
   destruct recovered; [|intros p []].
+  destruct req_delta; [exact Ho|].
   destruct out as [|a [|b t]]; auto.
   intros p Hp. apply Ho. apply last_only_incl. exact Hp.
 Qed.
@@ -268,8 +269,8 @@ Definition path_sound (p : dpath) : Prop :=
       forall V hist top cmd epoch_ok live recovered pubs,
         stream_recovery V hist top cmd epoch_ok live = SReply recovered pubs -> all_visible V pubs
   | PCacheRecovery =>
-      forall V hist_rev top cmd epoch_eq live recovered pubs,
-        cache_recovery V hist_rev top cmd epoch_eq live = SReply recovered pubs -> all_visible V pubs
+      forall V hist_rev top cmd epoch_eq req_delta live recovered pubs,
+        cache_recovery V hist_rev top cmd epoch_eq req_delta live = SReply recovered pubs -> all_visible V pubs
   | PMapState => forall V rev pubs, all_visible V (map_state_page V rev pubs)
   | PMapStream => forall V pubs, all_visible V (map_stream_page V pubs)
   | PMapLive =>
